@@ -247,7 +247,9 @@ pub fn run_history_t(h: &[Ev], restart_after: usize, sig: &str, tail: &[Ev]) -> 
                     format!("v{}", version)
                 }
             };
-            let f = r.append(&format!("{}.define", CN[*name]), Some(ctxs[*ctx]), Some(&format!("{{run: {{|frame| \"{}\"}}}}", tag)), None);
+            // byte-identical to the current definition, whichever kind that is
+            let src = if tag == "!err" { "{run: {|frame| error make {msg: \"boom\"}}}".to_string() } else { format!("{{run: {{|frame| \"{}\"}}}}", tag) };
+            let f = r.append(&format!("{}.define", CN[*name]), Some(ctxs[*ctx]), Some(&src), None);
             m.cmds.insert((*ctx, *name), (f.id, tag));
         }
         Ev::CtxRemove { ctx } => {
